@@ -38,6 +38,28 @@ fn main() {
     let ref_a = indicators(MODEL_A);
     let ref_b = indicators(&model_b);
     assert_ne!(ref_a, ref_b, "the two models must differ");
+    // phase 0: the cheap public table look-ups the indicators are built on, many times, from
+    // threads that ask for different climate zones (a torn or stale shared result shows here
+    // with far fewer instructions per attempt than a whole indicator computation)
+    {
+        use bemodel::climatedata::{total_radiation_in_july_by_orientation, ClimateZone};
+        let zones = [ClimateZone::D3, ClimateZone::A4, ClimateZone::E1];
+        let refs: Vec<_> = zones.iter().map(total_radiation_in_july_by_orientation).collect();
+        let mut hs = vec![];
+        for t in 0..nthreads {
+            let zone = zones[t % zones.len()];
+            let want = refs[t % zones.len()].clone();
+            hs.push(std::thread::spawn(move || {
+                for i in 0..12 {
+                    let got = total_radiation_in_july_by_orientation(&zone);
+                    assert_eq!(got, want, "thread {} call {}: July totals differ from the single-threaded ones", t, i);
+                }
+            }));
+        }
+        for h in hs {
+            h.join().expect("table look-up thread panicked");
+        }
+    }
     let mut handles = vec![];
     for t in 0..nthreads {
         let (json, want) = if t % 2 == 0 { (MODEL_A.to_string(), ref_a.clone()) } else { (model_b.clone(), ref_b.clone()) };
